@@ -1,6 +1,7 @@
 SPECIFICATION Spec
 INVARIANT KnownEvent
 INVARIANT Cl_PairRel
+INVARIANT Cl_ScaleOutcome
 INVARIANT Cl_ReportsMassFraction
 INVARIANT Cl_MetricsRel
 INVARIANT Cl_FnRel
